@@ -64,3 +64,17 @@ Definition split_raw_top (raw : bytes) : option (list bytes) := split_raw (S (le
 
 (* the timetags a reader of the binary score sees, in file order *)
 Definition score_tags (sc : list sentry) : list Z := map (fun s => top_tag (s_b s)) sc.
+
+(* OscScore.finish(tailtime) called from INSIDE a routine whose logical time is T (main.process(tail) or
+   score.finish(tail) in a routine body): tailtime stays relative to T -- add() adds the routine's logical time
+   again -- so the repaired code compares it with last - T.  As found there was no such branch. *)
+Open Scope Q_scope.
+Definition nrt_finish_inside (qk : quirks) (tail T : Q) (st : nstate) : nstate :=
+  let last := score_last_time (n_score st) in
+  let l := if qk_tail_early qk then tail else Qmaxq tail (last - T) in
+  let md := MNrt true in
+  score_add st (stamp_time md T (Some l))
+            (SBundle false (stamp_time md T (Some l)) (stamp_tag md T (Some l)) [SMsg cset_msg]).
+(* the routine that runs LAST closes the score at its logical time (= the time of the last wake-up) *)
+Definition nrt_run_closed_inside (qk : quirks) (p : prog) (fuel : nat) (tail : Q) : nstate :=
+  let st := nrt_loop qk p fuel (nrt_main qk p) in nrt_finish_inside qk tail (n_mtime st) st.
